@@ -266,6 +266,13 @@ def run(chk: common.Check) -> None:
     # through the real trace machinery in-process: what each thread wrote vs what was reported for its trace
     from . import _trace
     sspecs = _trace.stress_specs(chk, 8 if chk.tier == 'quick' else 60)
+    # characters that str.splitlines() takes for line boundaries but that are not line ends: a piece ends at '\n' only
+    odd = ("import sys\nprint('progress 10%\\rprogress 100%')\nprint('a\\x0bb')\nsys.stdout.write('x\\x0cy\\n')\n"
+           "print('fs\\x1cgs\\x1drs\\x1eus\\x1fend')\nprint('nel\\x85x')\nprint('ls\\u2028ps\\u2029end')\nsys.stdout.write('crlf\\r\\n')\n"
+           "sys.stdout.write('no newline \\r at all')\nsys.stdout.write(' …until now\\n')\nprint('tab\\there')\n")
+    for pol in ({'kind': 'all', 'command': 'next'}, {'kind': 'all', 'command': 'continue'}):
+        sspecs.append({'source': odd, 'policy': pol, 'trace_threads': True, 'trace_modules': False, 'kind': 'odd-separators', 'timeout': 30,
+                       'want_reference': False, 'want_recorder': False, 'switchinterval': None})
     for r in _trace.run_specs(sspecs, chunk=4):
         sp = r['spec']
         if 'harness_error' in r:
@@ -273,12 +280,12 @@ def run(chk: common.Check) -> None:
                 oracle_fail.append(({'script': sp['source'], 'policy': sp['policy']}, [f'the traced run did not complete: {r["harness_error"][:200]}'], None))
             continue
         chk.cov.case(('stress', sp['source'], repr(sp['policy'])))
-        chk.cov.count('kinds', 'threads-writing-concurrently')
+        chk.cov.count('kinds', 'threads-writing-concurrently' if sp['kind'] == 'stress' else sp['kind'])
         msgs = _trace.captured_oracle(r['traced'])
         if r['traced'].get('error'):
             msgs.append(f'spawned.run raised: {r["traced"]["error"]}')
         if msgs:
-            oracle_fail.append(({'script': sp['source'], 'policy': sp['policy'], 'switchinterval': sp['switchinterval']}, msgs, None))
+            oracle_fail.append(({'script': sp['source'], 'policy': sp['policy'], 'switchinterval': sp.get('switchinterval')}, msgs, None))
 
     for ws, msgs, out in oracle_fail[:5]:
         chk.violation(f'C13 oracle: {msgs[0]}', {'input': ws, 'oracle_messages': msgs, 'implementation': out})
